@@ -285,14 +285,26 @@ func TestVerifC01(t *testing.T) {
 
 			for _, m := range manips {
 				rc := r.clone()
-				var res openResult
 				mid := cidOf(m.data)
-				if pnc, stack := verifkit.Try(func() { res = rc.openEnv(ctx, g, m.data, mid) }); pnc != nil {
-					rep.Violate("C01/panic/"+kind, fmt.Sprintf("opening a manipulated envelope panicked: %v", pnc), map[string]interface{}{"manipulation": m.id, "stack": stack})
-					continue
+				// The same log entry is presented again after a failure (the message pipeline re-queues entries it
+				// could not open and retries them), and once more after the honest message has been opened.
+				attempts := 2
+				if classOf(m.id) != "bitflip" {
+					attempts = 3
 				}
-				rep.Case(fmt.Sprintf("%s/%d/%s", kind, pi, m.id))
-				c01Judge(rep, classOf(m.id), kind, res, p, sDev, headers.Counter, map[string]interface{}{"group": kind, "payload_len": len(p), "manipulation": m.id})
+				for att := 1; att <= attempts; att++ {
+					if att == 3 {
+						_ = rc.openEnv(ctx, g, data, id)
+					}
+					var res openResult
+					if pnc, stack := verifkit.Try(func() { res = rc.openEnv(ctx, g, m.data, mid) }); pnc != nil {
+						rep.Violate("C01/panic/"+kind, fmt.Sprintf("opening a manipulated envelope panicked: %v", pnc), map[string]interface{}{"manipulation": m.id, "stack": stack})
+						break
+					}
+					rep.Eval(1)
+					c01Judge(rep, classOf(m.id), kind, res, p, sDev, headers.Counter, map[string]interface{}{"group": kind, "payload_len": len(p), "manipulation": m.id, "attempt": att})
+				}
+				rep.Distinct(fmt.Sprintf("%s/%d/%s", kind, pi, m.id))
 			}
 
 			// cross-group presentation: the honest envelope shown to the same receiver as belonging to another group
@@ -367,6 +379,66 @@ func TestVerifC01(t *testing.T) {
 			}
 			prevEnv, prevHeaders, prevEnvMsg = data, headers, envMsg
 			chainValue = nextChain
+		}
+
+		// --- forgeries attributed to the OPENER's own device: the insider S knows the chain key of device V
+		// (legitimately announced to it) and presents V with envelopes that claim to come from V itself.
+		{
+			v := w.rs[0]
+			annV, err := v.ss.GetShareableChainKey(ctx, g, s.memberPK(g))
+			if err != nil {
+				rep.Inconclusivef("%s: victim announcement: %v", kind, err)
+				return
+			}
+			vChain, err := decryptDeviceChainKey(annV, g, s.md(g).member, v.devicePK(g))
+			if err != nil {
+				rep.Inconclusivef("%s: insider cannot open the victim's announcement: %v", kind, err)
+				return
+			}
+			vDev := rawPK(v.devicePK(g))
+			ck := vChain.ChainKey
+			cnt := vChain.Counter
+			for round := 0; round < 3; round++ {
+				own := randBytes(rng, 20)
+				d, err := v.ss.SealEnvelope(ctx, g, wrapPayload(own))
+				if err != nil {
+					rep.Violate("C01/seal-error/"+kind, err.Error(), "own-device scenario")
+					break
+				}
+				next, _, _ := deriveNextKeys(ck, nil, g.GetPublicKey())
+				ck, cnt = next, cnt+1
+				if res := v.openEnv(ctx, g, d, cidOf(d)); res.err != nil || !sameBytes(res.payload, own) {
+					rep.Violate("C01/honest-open-own/"+kind, fmt.Sprintf("device cannot open its own envelope (err=%v)", res.err), round)
+				}
+				// forge the victim's NEXT counter (its key is already derivable and, after reading back its own
+				// message, precomputed on the victim) and the counter just used
+				_, mkNext, _ := deriveNextKeys(ck, nil, g.GetPublicKey())
+				forged := wrapPayload([]byte("forged-as-you"))
+				for name, sig := range map[string][]byte{
+					"sig-by-insider-device": mustSign(s.md(g).device.Sign(forged)),
+					"sig-garbage":           randBytes(rng, 64),
+					"sig-empty":             nil,
+				} {
+					box := secretbox.Seal(nil, forged, uint64AsNonce(cnt+1), (*[32]byte)(&mkNext))
+					fd := reboxHeaders(g, &protocoltypes.MessageHeaders{Counter: cnt + 1, DevicePk: vDev, Sig: sig}, box)
+					vc := v.clone()
+					for att := 1; att <= 2; att++ {
+						var res openResult
+						if pnc, stack := verifkit.Try(func() { res = vc.openEnv(ctx, g, fd, cidOf(fd)) }); pnc != nil {
+							rep.Violate("C01/panic/"+kind, fmt.Sprintf("%v", pnc), stack)
+							break
+						}
+						rep.Eval(1)
+						if res.err == nil {
+							rep.Violate("C01/insider/own-device-"+name+"/"+kind, "an envelope forged by a fellow member and attributed to the opening device itself was delivered",
+								map[string]interface{}{"group": kind, "forged_counter": cnt + 1, "attempt": att, "got_payload": verifkit.Hex(res.payload)})
+						} else {
+							rep.Count("rejected", 1)
+						}
+					}
+					rep.Distinct(fmt.Sprintf("%s/own-device/%d/%s", kind, round, name))
+				}
+			}
 		}
 	}
 	if rep.Counter("honest_opens") == 0 || rep.Counter("rejected") == 0 {
